@@ -801,11 +801,8 @@ fn nocfg() -> RandomCfg {
 
 /// a user packet of the given encoded length
 fn user_packet(pool: &Pool, len: usize, c: usize) -> Option<(insim::Packet, Vec<u8>)> {
-    let f = pool.frame(len, "pkt", c)?;
-    let (_, p) = standalone(&pool.mode, &f);
-    let p = p?;
-    let enc = try_encode(&pool.mode, &p).ok()?;
-    Some((p, enc))
+    // built from the typed packet, not by decoding a frame with the decoder under test
+    pool.typed(len, c)
 }
 
 pub enum ReplayVerdict {
